@@ -208,7 +208,8 @@ class CertificateLibrary:
             if issuer_certificate is not None and temp_certificate.verify(
                 backend
             ):
-                self.add_authorization_ticket(temp_certificate)
+                # The ticket is remembered by the caller once the message it signed has
+                # verified: a frame with a bad signature must leave no trace in the store.
                 return temp_certificate
         elif len(certificates) == 2:
             authorization_authority = Certificate.from_dict(
@@ -233,7 +234,6 @@ class CertificateLibrary:
                         issuer=authorization_authority,
                     )
                     if authorization_ticket.verify(backend=backend):
-                        self.add_authorization_ticket(authorization_ticket)
                         return authorization_ticket
         elif len(certificates) == 3:
             root_certificate = Certificate.from_dict(certificates[-1])
